@@ -781,6 +781,7 @@ pub fn command(cmd: &str, args: &[String]) {
         "api" if args.get(0).map(|s| s.as_str()) == Some("sortperm") => api_sortperm(&args[1..]),
         "api" if args.get(0).map(|s| s.as_str()) == Some("sortperm1") => api_sortperm1(&args[1..]),
         "api" if args.get(0).map(|s| s.as_str()) == Some("copycheck") => api_copycheck(&args[1..]),
+        "api" if args.get(0).map(|s| s.as_str()) == Some("rawtexts") => api_rawtexts(&args[1..]),
         "api" if args.get(0).map(|s| s.as_str()) == Some("whitespace") => api_whitespace(&args[1..]),
         "api" if args.get(0).map(|s| s.as_str()) == Some("whitespace1") => api_whitespace1(&args[1..]),
         "api" if args.get(0).map(|s| s.as_str()) == Some("copycross") => api_copycross(&args[1..]),
